@@ -1558,6 +1558,15 @@ bool World::exec_foreign_op(const Step& s)
         h.bytes(p.lp.data(), p.lp.size());
         state_hashes.insert(h.value());
         log.u64(h.value());
+        // C06 on states only a second party produces (adjusted != default main cue, odd flags, 5 or 12 slots):
+        // every getter must still agree with the corresponding snapshot field
+        if (v2 && what != "f_corrupt" && what != "f_grid")
+            for (auto& sl : tracks)
+                if (sl.live && sl.h && sl.id == id)
+                {
+                    check_getter_vs_snapshot(observe_track(*sl.h));
+                    probes.hit("foreign_getter_snapshot_checked");
+                }
     };
 
     if (s.op == "f_write" || s.op == "f_mutate")
